@@ -65,25 +65,24 @@ type comment struct {
 type gen struct {
 	t        *rapid.T
 	pieces   []piece
-	prev     string // previous token text ("" at file start)
-	trail    cls    // class of comments trailing the previous token
-	capMay   bool   // inside a construct the formatter drops on purpose: nothing is "must"
-	pendNL   bool   // the next gap must contain a line break
-	mute     int    // > 0: no comments at all (inside a map key holding a struct literal)
-	noStruct int    // > 0: no struct literal (inside a map key that may carry comments)
-	noCmt    bool   // program without comments
-	noMay    bool   // no comments between the tokens of one item (class "may")
-	area     string // grammar area of the gap being emitted (for class "may" comments)
+	prev     string          // previous token text ("" at file start)
+	trail    cls             // class of comments trailing the previous token
+	capMay   bool            // inside a construct the formatter drops on purpose: nothing is "must"
+	pendNL   bool            // the next gap must contain a line break
+	noCmt    bool            // program without comments
+	noMay    bool            // no comments between the tokens of one item (class "may")
+	area     string          // grammar area of the gap being emitted (for class "may" comments)
 	mayOff   map[string]bool // areas in which no class "may" comment is placed
 	mayAreas map[string]int  // histogram: class "may" comments per area
 	assume   map[string]bool // findings assumed known: their signatures are excluded by construction
-	cmtPct   int    // chance of a comment per slot
-	nlPct    int    // chance of a voluntary line break per free gap
-	wild     bool   // odd whitespace characters (\r\n, \f, \v, runs)
+	cmtPct   int             // chance of a comment per slot
+	nlPct    int             // chance of a voluntary line break per free gap
+	wild     bool            // odd whitespace characters (\r\n, \f, \v, runs)
 	comments []comment
 	ncmt     int
 	// features, for the non-trivial rule and histograms
 	groups, stmts, fields, routes, nested, multiDoc, degenerate int
+	lossy                                                       bool // the program holds a construct the formatter drops on purpose (empty group/import/@doc, "()", ';')
 	kinds                                                       map[string]int
 }
 
@@ -126,6 +125,10 @@ func needSep(prev, next string) bool {
 	}
 	// "/" followed by "/" or "*" would open a comment; "*" "/" is harmless outside comments
 	if a == '/' && (b == '/' || b == '*') {
+		return true
+	}
+	// "interface" directly followed by "{}" is scanned as the single token interface{}
+	if strings.HasSuffix(prev, "interface") && b == '{' {
 		return true
 	}
 	// '.' runs: "..." must stay one token
@@ -188,6 +191,27 @@ func (g *gen) noTab(s string) string {
 	return s
 }
 
+// f2safe: with C20-F2 listed as known the generator keeps the finding's signature (sigTabInToken) out
+// of multi-line tokens by construction: no tab; in a string no blank next to a line break, in a
+// comment at most one.
+func (g *gen) f2safe(s string, comment bool) string {
+	if !g.assume["C20-F2"] {
+		return s
+	}
+	s = strings.ReplaceAll(s, "\t", " ")
+	before, after, to1, to2 := " \n", "\n ", "\n", "\n"
+	if comment {
+		before, after, to1, to2 = "  \n", "\n  ", " \n", "\n "
+	}
+	for strings.Contains(s, before) {
+		s = strings.ReplaceAll(s, before, to1)
+	}
+	for strings.Contains(s, after) {
+		s = strings.ReplaceAll(s, after, to2)
+	}
+	return s
+}
+
 func sanitizeBlock(s string) string {
 	// scanDocument closes a block comment at the first '/' that follows ANY earlier '*' of the
 	// body (its half-close state is never reset), so "/* 2 * 3 / 4 */" ends after "3 /".  Sources
@@ -232,13 +256,13 @@ func (g *gen) blockComment(c cls, multi bool, label string) string {
 			body = " " + body + " \n\t" + extra + "  \n"
 		}
 	}
-	txt := "/*" + sanitizeBlock(g.noTab(body)) + "*/"
+	txt := "/*" + sanitizeBlock(g.f2safe(body, true)) + "*/"
 	g.comments = append(g.comments, comment{text: txt, must: c == clsMust})
 	return txt
 }
 
 func (g *gen) wantComment(c cls, label string) bool {
-	if c == clsNone || g.noCmt || g.mute > 0 || (c == clsMay && (g.noMay || g.mayOff[g.area])) {
+	if c == clsNone || g.noCmt || (c == clsMay && (g.noMay || g.mayOff[g.area])) {
 		return false
 	}
 	if !g.chance(g.cmtPct, label) {
@@ -451,7 +475,7 @@ func (g *gen) rawStr(label string, multiline bool) string {
 	if b == "" {
 		b = "r"
 	}
-	return "`" + b + "`"
+	return "`" + g.f2safe(b, false) + "`"
 }
 
 var tagPool = []string{"`json:\"name\"`", "`json:\"age,optional\"`", "`form:\"id\"`", "`path:\"id\"`", "`json:\"a,default=1\" validate:\"x\"`",
@@ -526,6 +550,7 @@ func (g *gen) program(maxStmts int) {
 // comments around it go with it.
 func (g *gen) dropped(f func()) {
 	g.degenerate++
+	g.lossy = true
 	old := g.capMay
 	g.capMay = true
 	f()
@@ -708,7 +733,7 @@ func (g *gen) dataType(depth int, structOK bool, k gapKind, head cls) {
 	if depth <= 0 && c != 1 && c != 6 {
 		c = 0
 	}
-	if c == 7 && (!structOK || g.noStruct > 0) {
+	if c == 7 && !structOK {
 		c = 0
 	}
 	switch c {
@@ -744,20 +769,9 @@ func (g *gen) dataType(depth int, structOK bool, k gapKind, head cls) {
 		// comments inside a map key are dropped on purpose (golden tests, /*xx*/ markers)
 		oldCap := g.capMay
 		g.capMay = true
-		keyStruct := g.chance(4, "mapkeystruct")
-		if keyStruct {
-			// domain cut: a map key that may contain a struct literal carries no comments
-			g.mute++
-		} else {
-			g.noStruct++
-		}
-		g.dataType(depth-1, keyStruct, gAny, clsMay)
+		// a struct literal as map key is legal for the parser; rare on purpose
+		g.dataType(depth-1, g.chance(6, "mapkeystruct"), gAny, clsMay)
 		g.tok("]", gAny, clsMay)
-		if keyStruct {
-			g.mute--
-		} else {
-			g.noStruct--
-		}
 		g.capMay = oldCap
 		g.dataType(depth-1, true, gAny, clsMay)
 	case 5: // pointer: next must be IDENT, '[', interface{} or '*'
@@ -987,6 +1001,9 @@ func (g *gen) serviceItem() {
 	hasReq, hasResp, semi := g.chance(60, "hasreq"), g.chance(60, "hasresp"), g.chance(15, "semi")
 	reqEmpty := hasReq && g.chance(6, "reqempty")
 	respEmpty := hasResp && g.chance(6, "respempty")
+	if semi || reqEmpty || respEmpty {
+		g.lossy = true
+	}
 	// the comment at the end of the route line must survive when it hangs on the last token the
 	// formatter keeps; "()" bodies are dropped on purpose (golden tests), and comments behind ';'
 	// hang on a token the AST does not keep
